@@ -464,3 +464,81 @@ Example C14_log_failed_connect_example :
   /\ ls_res (mkLA [50] 1 900) <> 0
   /\ ls_q (ls_emit ls_ex_pk false s 7) = [50; 900] /\ ls_shaking (ls_emit ls_ex_pk false s 7) = true.
 Proof. vm_compute. repeat split; try reflexivity. discriminate. Qed.
+
+(* ---- source tie (session 3, second wave): the framing functions ARE the source ----
+   Gen/FrameGen.v is regenerated on every run by tools/translate/frame2coq.py
+   (fail closed) from dawgie/pl/message.py (send, receive),
+   dawgie/db/shelve/comms.py (Worker._send, Worker.__init__/dataReceived),
+   dawgie/pl/logger/__init__.py (LogSink.__init__/dataReceived) and
+   dawgie/pl/farm.py (Hand.__init__/dataReceived); the generated encoders,
+   receiver steps and the blocking receive are PROVED equal to frame / iter /
+   feed / receive of the hand-written models, for every argument.  Not
+   translated: what is done with a decoded message (`emit` and the
+   closing/decodable oracles stand for it; correspondence of drive_frame.py). *)
+From DV Require Gen.FrameGen Proofs.FrameGenEq.
+
+Theorem C14_send_is_source : forall p,
+  FrameGen.message_send p = frame p /\ FrameGen.worker_send p = frame p /\
+  FrameGen.message_send p = send p.
+Proof.
+  intros. split; [apply FrameGenEq.message_send_eq|].
+  split; [apply FrameGenEq.worker_send_eq|apply FrameGenEq.message_send_client].
+Qed.
+Print Assumptions C14_send_is_source.
+
+Theorem C14_logsink_is_source : forall s d,
+  FrameGen.logsink_init = finit /\ FrameGen.logsink_iter s = iter s /\
+  FrameGen.logsink_feed s d = feed s d.
+Proof.
+  intros. split; [reflexivity|]. split; [apply FrameGenEq.logsink_iter_eq|apply FrameGenEq.logsink_feed_eq].
+Qed.
+Print Assumptions C14_logsink_is_source.
+
+Theorem C14_worker_is_source : forall s d,
+  FrameGen.worker_init = finit /\ FrameGen.worker_iter s = iter s /\
+  FrameGen.worker_feed s d = feed s d.
+Proof.
+  intros. split; [reflexivity|]. split; [apply FrameGenEq.worker_iter_eq|apply FrameGenEq.worker_feed_eq].
+Qed.
+Print Assumptions C14_worker_is_source.
+
+Theorem C14_hand_is_source : forall s d,
+  FrameGen.hand_init = finit /\ FrameGen.hand_iter s = iter s /\
+  FrameGen.hand_feed s d = feed s d.
+Proof.
+  intros. split; [reflexivity|]. split; [apply FrameGenEq.hand_iter_eq|apply FrameGenEq.hand_feed_eq].
+Qed.
+Print Assumptions C14_hand_is_source.
+
+Theorem C14_receive_is_source : forall s, FrameGen.message_receive s = receive s.
+Proof. exact FrameGenEq.message_receive_eq. Qed.
+Print Assumptions C14_receive_is_source.
+
+(* C14_chunking and C14_client_receive restated on the generated functions:
+   any sequence of dataReceived calls of a fresh LogSink / Worker / Hand hands
+   over what one call with the concatenation does; the generated receive
+   returns the payload the generated send framed, whatever the recv pieces *)
+Theorem C14_chunking_on_source : forall chunks,
+  FrameGenEq.gfeed_all FrameGen.logsink_feed FrameGen.logsink_init chunks
+    = FrameGen.logsink_feed FrameGen.logsink_init (concat chunks) /\
+  FrameGenEq.gfeed_all FrameGen.worker_feed FrameGen.worker_init chunks
+    = FrameGen.worker_feed FrameGen.worker_init (concat chunks) /\
+  FrameGenEq.gfeed_all FrameGen.hand_feed FrameGen.hand_init chunks
+    = FrameGen.hand_feed FrameGen.hand_init (concat chunks).
+Proof.
+  intros. split; [|split].
+  - rewrite (FrameGenEq.gfeed_all_eq _ FrameGenEq.logsink_feed_eq), FrameGenEq.logsink_feed_eq.
+    apply F_chunking. reflexivity.
+  - rewrite (FrameGenEq.gfeed_all_eq _ FrameGenEq.worker_feed_eq), FrameGenEq.worker_feed_eq.
+    apply F_chunking. reflexivity.
+  - rewrite (FrameGenEq.gfeed_all_eq _ FrameGenEq.hand_feed_eq), FrameGenEq.hand_feed_eq.
+    apply F_chunking. reflexivity.
+Qed.
+Print Assumptions C14_chunking_on_source.
+
+Example C14_source_example :
+  FrameGenEq.gfeed_all FrameGen.logsink_feed FrameGen.logsink_init [[0; 0]; [0; 2; 7]; [8; 0; 0; 0; 1; 9; 0]]
+    = (mkF [0] None, [[7; 8]; [9]]) /\
+  FrameGen.message_receive [[0; 0]; [0; 2; 7]; [8; 0; 0; 0; 1; 9; 0]] = Some ([7; 8], [[0; 0; 0; 1; 9; 0]]) /\
+  FrameGen.worker_send [7; 8] = [0; 0; 0; 2; 7; 8].
+Proof. vm_compute. split; [reflexivity|]. split; reflexivity. Qed.
